@@ -27,7 +27,7 @@ class MirrorRun:
 
     # ------------------------------------------------------------ build
     def build(self):
-        ov = self.ctx.harness_overlay(PKG, PKG + "/internal/tmi")
+        ov = self.ctx.harness_overlay(PKG, PKG + "/internal/tmi", only=("zz_verif_rig", "zz_verif_mirror", "zz_verif_access", "zz_verif_proj", "zz_verif_conc"))
         self.binary = os.path.join(self.dir, "mirror.test")
         self.ctx.go_test(PKG, "", overlay=ov, compile_only=True, binary=self.binary, timeout=900)
         out = os.path.join(self.dir, "rank.ndjson")
@@ -45,6 +45,19 @@ class MirrorRun:
         copy = dict(kw.pop("copy", {}) or {})
         copy[self.world_tla] = "MirrorWorld.tla"
         return self.ctx.tlc("MirrorMC", cfg, copy=copy, **kw)
+
+    def guided(self, steps):
+        """Re-derives the spec's expectations for one stored behaviour (steps without Boot or with it)."""
+        steps = [s for s in steps if s["op"] != "Boot"]
+        mw.write_world(self.world, self.rank, self.world_tla, guide=steps)
+        try:
+            res = self.tlc("Mirror_sim.cfg", workers=1, timeout=600,
+                           defines={"MaxSteps": len(steps) + 1, "AvoidPanics": "FALSE", "AllowCrash": "TRUE"})
+        finally:
+            mw.write_world(self.world, self.rank, self.world_tla)
+        behs = self.ctx.tlc_emitted(res)
+        full = [b for b in behs if len(b) == len(steps) + 1 or (b and b[-1].get("pan"))]
+        return full[:1] if full else behs[:1]
 
     def behaviours(self, res):
         behs = self.ctx.tlc_emitted(res)
